@@ -336,6 +336,7 @@ def option_value_table(prog, chk):
     else:
         chk.ok("C20.f", rd, "short options: %d combinations agree with the getopt decision table" % total2, where, "finite valuation of the guards", evals=total2)
     quoted_word_typestate(prog, chk, "C20.h")
+    descriptor_pairing(prog, chk, "C20.i")
 
 
 def quoted_word_typestate(prog, chk, rid):
@@ -446,3 +447,55 @@ def quoted_word_typestate(prog, chk, rid):
                     "argument vanishes and every later argument shifts by one" % sorted(set(x[0] for x in bad)), evals=n_states)
         else:
             chk.ok(rid, f, "separator emits the pending word", f.where(sb["label"]), "%d abstract states leave the case" % n_states, evals=max(1, n_states))
+
+
+def descriptor_pairing(prog, chk, rid):
+    """PAIRF over every member of Process: a stored pipe descriptor that is closed is zeroed (the same member) on every path after
+    the close, and a descriptor member is zeroed only after it was closed: a stale number is closed again later (by then it may
+    belong to another pipe), a zeroed-but-open one leaks and read() then reads descriptor 0"""
+    chk.rule(rid, "PAIRF: in the parent-side members of Process every `::close(fdX)` of a stored descriptor is followed by `fdX = 0` and every "
+                  "`fdX = 0` outside the constructor follows a close of that same member", floor=6)
+    fs = [f for f in prog.functions.values() if f.clsq == "Process" and f.file.endswith("Process.cpp") and f.blocks and f.kind != "ctor"]
+    FD = re.compile(r"^this->(fd\w+)$")
+    for f in fs:
+        closes = {}
+        for c in q.calls(f):
+            if f.nodes[c].get("callee") == "close" and q.call_args(f, c):
+                m = FD.match(q.no_casts(q.xr(f, q.call_args(f, c)[0])))
+                if m:
+                    closes.setdefault(m.group(1), []).append(c)
+        zeros = {}
+        for s in q.stores(f):
+            m = FD.match(q.no_casts(f.r(s.lhs)))
+            if m and s.rhs is not None and q.is_zero(f, s.rhs):
+                zeros.setdefault(m.group(1), []).append(s.node)
+        # the child side after vfork closes descriptors it will never use again and execs: no bookkeeping there
+        child = set()
+        for b in f.blocks.values():
+            c = b.get("cond")
+            if c is not None and re.search(r"\(\w+ == 0\)|\(0 == \w+\)", q.no_casts(f.r(c))) and "fork" in q.xr(f, c):
+                child |= set(x[0] for x in f.reach({(b["succ"][0], 0)})) if b["succ"][0] is not None else set()
+        for fd, cs in sorted(closes.items()):
+            for c in cs:
+                if (f.node_pos(c) or (None,))[0] in child:
+                    continue
+                zs = q.pos_of(f, zeros.get(fd, []))
+                p = f.find_path(f.node_pos(c), {f.exit_pos()}, avoid=zs)
+                if zs and p is None:
+                    chk.ok(rid, f, "close(%s) then %s = 0" % (fd, fd), f.where(c), "zero store on every path after the close", evals=2)
+                else:
+                    chk.bad(rid, f, "descriptor-closed-but-kept:" + fd, f.where(c),
+                            "`%s` is closed but a path to the exit does not set it to 0: the stale number is closed again by a later join/kill/close, "
+                            "possibly hitting a descriptor that meanwhile belongs to another pipe" % fd, f.path_lines(p) if p else None)
+        for fd, zs in sorted(zeros.items()):
+            for z in zs:
+                if (f.node_pos(z) or (None,))[0] in child:
+                    continue
+                cs = q.pos_of(f, closes.get(fd, []))
+                p = f.find_path(f.entry_pos(), {f.node_pos(z)}, avoid=cs, after_src=False)
+                if cs and p is None:
+                    chk.ok(rid, f, "%s = 0 only after close(%s)" % (fd, fd), f.where(z), "a close of the same member on every path to the store", evals=2)
+                else:
+                    chk.bad(rid, f, "descriptor-zeroed-without-close:" + fd, f.where(z),
+                            "`%s` is set to 0 on a path that did not close it: the pipe end stays open (the child never sees end-of-file) and "
+                            "read()/write() then use descriptor 0" % fd, f.path_lines(p) if p else None)
